@@ -101,33 +101,33 @@ Proof. exact get_word_correct. Qed.
 Print Assumptions C07_get_word.
 
 (* ---- the __setitem__ sugar  v[start:stop] = value  (start = key.start or 0,
-   stop = key.stop or self.length) ---- *)
-
-(* it is the flat slice assignment whenever the stop bound is not an explicit 0 ... *)
-Theorem C07_setitem_partial :
+   stop = key.stop if key.stop is not None else self.length): it is the flat slice
+   assignment for EVERY pair of optional bounds, an explicit stop of 0 included (formerly
+   finding C07-F1, `key.stop or self.length`, repaired by d2d37fe) ---- *)
+Theorem C07_setitem :
   forall (B : Type) (zero : B) (v : bvec B) (start stop : option nat) (val : chunk B),
-    wf v -> wfc val -> stop <> Some 0 ->
+    wf v -> wfc val ->
     match fa_setitem B zero (flat v) start stop (cflat val) with
     | Some l' =>
         exists v' : bvec B,
           setitem_slice B zero v start stop val = Some v' /\ wf v' /\ flat v' = l'
     | None => setitem_slice B zero v start stop val = None
     end.
-Proof. exact setitem_partial. Qed.
-Print Assumptions C07_setitem_partial.
+Proof. exact setitem_correct. Qed.
+Print Assumptions C07_setitem.
 
-(* ... and NOT for an explicit stop of 0, which Python's `or` turns into the length:
-   v[2:0] = [8; 9] on [1; 2; 3; 4] is accepted and overwrites [2, 4), where the flat
-   array rejects the write (stop < start).  Genuine defect of halmos (finding C07-F1). *)
-Theorem C07_setitem_refuted :
+(* on the former counterexample: v[2:0] = [8; 9] on [1; 2; 3; 4] is rejected like the flat
+   write, v[0:0] = [] is the no-op, and an omitted stop still means "to the end" *)
+Example C07_setitem_nonvacuous :
   let v : bvec nat := run_ops 0 [OAppend (wrap false [1; 2; 3; 4])] in
-  let val : chunk nat := wrap false [8; 9] in
-  wf v /\ wfc val /\
-  fa_setitem nat 0 (flat v) (Some 2) (Some 0) (cflat val) = None /\
-  exists v', setitem_slice nat 0 v (Some 2) (Some 0) val = Some v' /\
-             flat v' = [1; 2; 8; 9] /\ flat v' <> flat v.
-Proof. exact setitem_witness. Qed.
-Print Assumptions C07_setitem_refuted.
+  wf v /\
+  fa_setitem nat 0 (flat v) (Some 2) (Some 0) [8; 9] = None /\
+  setitem_slice nat 0 v (Some 2) (Some 0) (wrap false [8; 9]) = None /\
+  fa_setitem nat 0 (flat v) (Some 0) (Some 0) [] = Some [1; 2; 3; 4] /\
+  setitem_slice nat 0 v (Some 0) (Some 0) (wrap false []) = Some v /\
+  exists v', setitem_slice nat 0 v (Some 1) None (wrap false [7; 8; 9]) = Some v' /\
+             flat v' = [1; 7; 8; 9].
+Proof. exact setitem_stop0_example. Qed.
 
 (* ---- the flat array of the specification reads as zero beyond its end and its length
    is the highest offset written (pointwise reading of Spec/ByteVecSpec.v) ---- *)
